@@ -122,6 +122,14 @@ listed as a finding.
   after the first had released the handler changed disk and behaviour, and R1/R2/R3 of the
   first update fired; an accepted second update is now excluded from those comparisons and
   judged by R5 alone.
+* **C02 fixed-window child outside its parent's filter** (wave g, never committed as
+  failing): with a fixed-window internal limit on `a.com/c` below a concurrency quota on
+  `a.com/p` the parent's slot was not given back on the response, only at expiry: a
+  fixed-window quota's system flow has no release step, the release on the response path is
+  done by the parent's own system flow, which runs for every transaction its filter covers.
+  An internal limit refines its parent (it inherits what its filter leaves out), so the
+  scenario now gives the parent `a.com/*`; the drop path (`fixedWindow.Dec` forwards to the
+  parent) is what the seeded change C02g breaks and is judged as before.
 * **C03 query requirement without a value**: the first version of the reference demanded that
   any value satisfies a key-only requirement; the engine requires the empty value (its
   "value not specified" branch is dead code, `GetParamValue` never returns nil). The property
@@ -255,6 +263,36 @@ attributed to either window).
 While extending C05 for C05f the check found one more genuine defect of the unchanged tree
 (`8147793`: DataSanitation and TransformAPICall dereferenced the nil parsed URL of a request
 whose URL does not parse).
+
+Seventh wave (suffix g), 16 changes: 7 were caught as delivered (C01g, C04g, C05g, C10g,
+C11g, C17g, C20g), 9 were missed at first. What was changed:
+C09g (allowances of at most 5 with a handful of percentages: a quarter of the runs now draw
+allowances up to 150 with any whole percentage and fill a share to the brim - which found
+the same kind of defect in the unchanged tree, 100 at 28 % let 29 pass, fix `7070e5d`; the
+sub-agent's change multiplies by 0.01 instead of dividing by 100 and is harmless after the
+repair),
+C03g (the host of a transaction was always one of the configured hosts: hosts now gain or
+lose a label at either end - which found that `a.com/*` was applied to `a.com.x`, fix
+`ef3d592`; the sub-agent's change, ported over the repair, does the same for `{param}`),
+C12g (`retry_after_type` was always given: one throttling run in five leaves it out; whether
+the engine then stores is its choice, a replay must carry a reduced value),
+C19g (gateway failures were raised as exactly the registered exception class: subclasses
+`SSLError`, `ConnectTimeout` as in requests),
+C06g (a shutdown never met a request the TTL watcher had claimed and not yet released: a
+third of the runs with schedulable engine goroutines place the shutdown there - the clock
+goes to the earliest expiry, the watcher is driven lock site by lock site until it has made
+its claim, then the context is cancelled and the loop driven into its drain),
+C15g (the state file could always be written: a third of the deliveries have one or two
+flushes fail - the path is a directory for the time of the flush; a failed flush may lose
+its own batch and nothing else, so the result must equal the single-batch result of the
+records without some subset of the failed batches),
+C02g (internal limits below a concurrency quota were concurrency quotas themselves: a
+fixed-window child in half of the parent runs),
+C08g (one judged update per gateway: in a quarter of the sampled runs an accepted
+/apply_flows that removes a flow file comes first),
+C18g (transactions entered below the SPOE message handler: C18S and C18R send half of
+their runs through `routing.Handler`, one call per frame; the race detector reports the shared
+variable, C18S the swapped verdicts).
 
 ### 12.1 Reverting the repairs
 
